@@ -76,6 +76,16 @@ CLAIMED['C14'] = dict(
     technique="token/decision-table extraction and composition, loop-carried-accumulation dataflow rule with controls, argument-flow rules over the clang-resolved AST",
     ref="DESIGN.md section 4, C14")
 
+CLAIMED['C18'] = dict(
+    text="The structural clause 'no mutable state shared between solver objects', decided exhaustively over every global variable that the LLVM IR of "
+         "every library unit defines or instantiates (including statics inside Boost/fmt/zstr headers that SoPlex's calls instantiate): each is "
+         "constant, thread_local, a guard, or written only by its own dynamic initialiser; addresses handed out by accessor functions are followed "
+         "one call level; plus: no call to a non-reentrant or process-configuring C library function anywhere in library code. Positive controls "
+         "fire on every run. One known finding (Boost's process-wide default precision) is reported as KNOWN-FINDING. Not a proof of race freedom "
+         "inside GMP/MPFR/zlib nor of result equality.",
+    technique="LLVM-IR global-variable use classification (custom libLLVM pass) joined with a forbidden-call scan over the clang-resolved AST",
+    ref="DESIGN.md section 4, C18")
+
 NA = {
     'C10': "every clause quantifies over run-time numbers (residuals at rounding level, singular vs. well-conditioned, agreement of multi-rhs solves); "
            "no structural clause is both checkable and necessary (DESIGN.md section 5)",
